@@ -46,6 +46,7 @@ type Opts struct {
 	NoRandom         bool     // no random routers (outputs comparable across executions without a pinned random source)
 	NoGeneratedIDs   bool     // no templates that print engine-generated UUIDs (ticket UUIDs): for checks that cannot pin the UUID source
 	LocationHeavy    bool     // half of the router cases are location tests (shared location hierarchy)
+	CaseBias         []string // router test types that make up half of the drawn cases
 	BrokenFlow       bool     // the assets may hold a flow whose definition does not load (target of enter_flow actions only)
 	TranslateMissing bool     // translations of quick_replies/attachments that the base language lacks, referencing globals/fields
 }
@@ -581,10 +582,14 @@ func (g *gen) router(flowType string, nodeInfo *Node) (M, []M) {
 		cases := []M{}
 		for i := 0; i < ncases; i++ {
 			cs := rapid.SampledFrom(caseMenu).Draw(g.t, "case")
-			if g.o.LocationHeavy && rapid.Bool().Draw(g.t, "loccase") {
+			bias := g.o.CaseBias
+			if g.o.LocationHeavy {
+				bias = append(append([]string{}, bias...), locationCases...)
+			}
+			if len(bias) > 0 && rapid.Bool().Draw(g.t, "loccase") {
 				locs := []caseSpec{}
 				for _, m := range caseMenu {
-					if contains(locationCases, m.typ) {
+					if contains(bias, m.typ) {
 						locs = append(locs, m)
 					}
 				}
